@@ -189,10 +189,16 @@ def _check_registry(eng, reg, model, tag):
     R = s["default_elements"]["R"]
     eng.check(same(R.get_default_value("R"), model["R_default"]), tag + ":default value as last set / reset",
               lambda: "got %r wanted %r" % (R.get_default_value("R"), model["R_default"]))
+    # ... and of a private built-in (K, the Kramers-Kronig RC element): a reset restores every element included by default
+    K = s["default_elements"]["K"]
+    eng.check(same(K.get_default_value("R"), model["K_default"]), tag + ":default value of a private built-in as last set / reset",
+              lambda: "KramersKronigRC default R: got %r wanted %r" % (K.get_default_value("R"), model["K_default"]))
     for k, c in s["default_elements"].items():
         dv, dl, du, df, sym, eq = s["defaults"][k]
         okc = c._symbol == sym and c._equation == eq and dict(c._parameter_default_lower_limit) == dl and dict(c._parameter_default_upper_limit) == du
-        if k != "R":
+        if k == "K":
+            okc = okc and {a: b for a, b in c._parameter_default_value.items() if a != "R"} == {a: b for a, b in dv.items() if a != "R"}
+        elif k != "R":
             okc = okc and dict(c._parameter_default_value) == dv
         eng.check(okc, tag + ":other built-in definitions untouched", lambda: "element %s" % k)
     # the parser recognises exactly the registered symbols
@@ -213,8 +219,9 @@ def make_history_harness(length: int):
         _restore(reg)
         s = _snapshot(reg)
         UserA, UserB, UserBad = _user_classes()
-        model = {"user": {}, "R_default": s["defaults"]["R"][0]["R"]}
+        model = {"user": {}, "R_default": s["defaults"]["R"][0]["R"], "K_default": s["defaults"]["K"][0]["R"]}
         Resistor = s["default_elements"]["R"]
+        KKRC = s["default_elements"]["K"]
         try:
             check_registry(eng, reg, model, "initial")
             for step in range(length):
@@ -249,10 +256,15 @@ def make_history_harness(length: int):
                         model["user"] = {}
                     if dp:
                         model["R_default"] = s["defaults"]["R"][0]["R"]
+                        model["K_default"] = s["defaults"]["K"][0]["R"]
                 elif op == "set_default":
                     v = eng.real("step%d.value" % step)
-                    Resistor.set_default_values(R=v)
-                    model["R_default"] = v
+                    if eng.choice(2, "step%d.private_builtin" % step) == 1:
+                        KKRC.set_default_values(R=v)
+                        model["K_default"] = v
+                    else:
+                        Resistor.set_default_values(R=v)
+                        model["R_default"] = v
                 elif op == "set_default_unknown_key":
                     # a key that is not a parameter of the class -- for a container also the name of one of its sub-circuits -- is refused
                     # and leaves the class defaults alone (check_registry compares every built-in's defaults with the snapshot)
@@ -262,10 +274,11 @@ def make_history_harness(length: int):
                 else:
                     reg.reset_default_parameter_values()
                     model["R_default"] = s["defaults"]["R"][0]["R"]
+                    model["K_default"] = s["defaults"]["K"][0]["R"]
                 check_registry(eng, reg, model, "after step")
             # a final full reset: exactly as freshly imported
             reg.reset()
-            model = {"user": {}, "R_default": s["defaults"]["R"][0]["R"]}
+            model = {"user": {}, "R_default": s["defaults"]["R"][0]["R"], "K_default": s["defaults"]["K"][0]["R"]}
             check_registry(eng, reg, model, "after reset")
             # ... including for user symbols registered afterwards
             ok, res = call(reg.register_element, _definition(reg, UserA, "U"))
@@ -298,7 +311,7 @@ def obligations(tier: str):
     L = 2 if tier == "quick" else 3
     obs.append(Obligation("history.%d" % L, make_history_harness(L),
                           bounds="every history of %d operations out of %d kinds (register valid/second/inconsistent/duplicate-symbol/invalid-symbol with "
-                                 "private flag, remove, reset x3, set_default_values(symbolic), reset_default_parameter_values), followed by reset() and a "
+                                 "private flag, remove, reset x3, set_default_values(symbolic) on Resistor or on the private built-in KramersKronigRC, reset_default_parameter_values), followed by reset() and a "
                                  "registration" % (L, len(OPS)), functions=funcs_b, expect_reach=["history"], max_paths=1000000))
     for o in obs:
         o.replay = o.harness
